@@ -45,15 +45,17 @@ package props
 // not to the result: for tiny amounts the result is the difference of two nearly equal
 // 100-bit numbers and only its absolute error is bounded (see c12 report).
 //
-// Calibration (unchanged tree, 2026-09, 4 x 400 000 cases per function at seeds 1..4,
-// C12_CALIBRATE=1): the largest observed (|impl-exact|-1) / (M*(expo+xerr+round)) is
-// documented next to c12K below. K is that maximum times a safety factor.
+// Every term is an upper bound by construction (round-to-nearest: relative error <= 2^-100
+// per big.Float operation, <= 2^-53 for the float64 quotient), so the model should hold
+// with K = 1; K is a pure safety factor for second-order effects and the internals of
+// Log/Exp. Calibration: see c12K.
 
 import (
 	"fmt"
 	"math"
 	"math/big"
 	"os"
+	"sort"
 	"sync"
 	"testing"
 
@@ -63,8 +65,12 @@ import (
 	"verif/harness/sim"
 )
 
-// c12K is the frozen safety factor on the error model (see the calibration note above).
-const c12K = 8
+// c12K is the frozen safety factor on the error model.
+//
+// Calibration on the unchanged tree (C12_CALIBRATE=1 turns the tolerance checks into
+// measurements of ratio = (|impl-exact|-1) / (M*(expo+xerr+round)) and prints the maxima):
+// CALIBRATION-RESULTS
+const c12K = 4
 
 var (
 	c12One  = big.NewInt(1)
@@ -134,15 +140,28 @@ func (c c12Case) call(t *rapid.T) *big.Int {
 // ---------------------------------------------------------------------------------
 // error model
 
-// c12Unit returns M*(expo+xerr+round) of the model above and the name of the largest term.
-func c12Unit(k bancor.Kind, s, r *big.Int, crr uint32, amt *big.Int) (*big.Float, string) {
+// c12Model is the error model of one call.
+type c12Model struct {
+	unit   *big.Float // M*(expo+xerr+round); +Inf when the float64 estimate overflows
+	linear *big.Float // M*(expo+round) – the part that does not depend on the rounding of x
+	term   string     // name of the largest term
+	cancel bool       // SaleAmount with 0 < x < 8u: x is lost in the rounding of reserve-wanted
+}
+
+// c12Unit evaluates the model above in float64 (a few percent accuracy is enough).
+func c12Unit(k bancor.Kind, s, r *big.Int, crr uint32, amt *big.Int) c12Model {
 	const u = 0x1p-100
 	n, d, m := bancor.Operands(k, s, r, amt)
 	p, q := bancor.Exponent(k, crr)
 	e := float64(p) / float64(q)
-	mf := new(big.Float).SetPrec(64).SetInt(m)
+	mf := func(v float64) *big.Float {
+		if math.IsInf(v, 0) || math.IsNaN(v) {
+			return new(big.Float).SetInf(false)
+		}
+		return new(big.Float).SetPrec(64).Mul(new(big.Float).SetPrec(64).SetInt(m), new(big.Float).SetPrec(64).SetFloat64(v))
+	}
 	if n.Sign() == 0 { // x == 0: P == 0 on both sides, only the product is rounded
-		return mf.Mul(mf, big.NewFloat(4*u)), "round"
+		return c12Model{unit: mf(4 * u), linear: mf(4 * u), term: "round"}
 	}
 	quo := func(a, b *big.Int) float64 {
 		f, _ := new(big.Float).SetPrec(64).Quo(new(big.Float).SetInt(a), new(big.Float).SetInt(b)).Float64()
@@ -162,6 +181,7 @@ func c12Unit(k bancor.Kind, s, r *big.Int, crr uint32, amt *big.Int) (*big.Float
 	expo := P * e * 0x1p-53 * math.Abs(lnx)
 	round := 4 * u * math.Max(P, 1)
 	var xerr float64
+	cancel := false
 	switch {
 	case k.Purchase():
 		xerr = 4 * u * e * P
@@ -171,6 +191,7 @@ func c12Unit(k bancor.Kind, s, r *big.Int, crr uint32, amt *big.Int) (*big.Float
 		xerr = 2 * e * P * 4 * u / x
 	default:
 		xerr = math.Pow(x+4*u, e)
+		cancel = true
 	}
 	name := "expo"
 	if xerr > expo && xerr >= round {
@@ -178,11 +199,7 @@ func c12Unit(k bancor.Kind, s, r *big.Int, crr uint32, amt *big.Int) (*big.Float
 	} else if round > expo {
 		name = "round"
 	}
-	sum := expo + xerr + round
-	if math.IsInf(sum, 0) || math.IsNaN(sum) {
-		return new(big.Float).SetInf(false), "inf"
-	}
-	return mf.Mul(mf, new(big.Float).SetPrec(64).SetFloat64(sum)), name
+	return c12Model{unit: mf(expo + xerr + round), linear: mf(expo + round), term: name, cancel: cancel}
 }
 
 // c12Slack returns K*unit as a big.Float.
@@ -241,12 +258,18 @@ func c12Report(t *testing.T) {
 	}
 	c12Mu.Lock()
 	defer c12Mu.Unlock()
+	var lines []string
 	for b, w := range c12Worsts {
-		t.Logf("C12-CALIBRATION %-34s max ratio %.4g (term %s) at %s", b, w.ratio, w.term, w.what)
+		lines = append(lines, fmt.Sprintf("C12-CALIBRATION %-34s max ratio %.4g (term %s) at %s", b, w.ratio, w.term, w.what))
 	}
 	for b, n := range c12Hist {
-		t.Logf("C12-HIST %-48s %d", b, n)
+		lines = append(lines, fmt.Sprintf("C12-HIST %-48s %d", b, n))
 	}
+	sort.Strings(lines)
+	for _, l := range lines {
+		t.Log(l)
+	}
+	c12Worsts, c12Hist = map[string]*c12Worst{}, map[string]int{}
 }
 
 // ---------------------------------------------------------------------------------
@@ -361,11 +384,12 @@ func c12MinSupply(r *big.Int, crr uint32) *big.Int {
 func c12Coin(t *rapid.T) (s, r *big.Int, crr uint32) {
 	crr = c12Crr(t)
 	r = c12Mag(t, "reserve", c12E22, c12E33)
-	lo := c12MinSupply(r, crr)
-	if sim.U(t, "supply.created", 4) != 0 {
-		lo = c12E18 // most coins: never sold below the creation minimum
+	if sim.U(t, "supply.sold-down", 5) == 0 {
+		// a coin sold below the creation minimum of 10^18 (as far as its curve allows)
+		s = c12Mag(t, "supply", c12MinSupply(r, crr), c12E18)
+	} else {
+		s = c12Mag(t, "supply", c12E18, c12E33)
 	}
-	s = c12Mag(t, "supply", lo, c12E33)
 	return
 }
 
@@ -418,14 +442,108 @@ func c12Sample(c c12Case, res *big.Int, extra map[string]interface{}) func() int
 // ---------------------------------------------------------------------------------
 // (a) accuracy, (b) sign / bounds / monotonicity – one test per function
 
+// Known findings on the unchanged tree (excluded by construction and counted, each with a
+// deterministic reproducer TestC12_KF_*):
+//
+//   - c12-return-above-reserve: CalculateSaleReturn multiplies by the reserve rounded to 100
+//     bits. For a reserve above 2^100 (1.27e30 pip) that is not representable and an amount
+//     so close to the supply that (1-a/s)^(100/crr) < 2^-100, the result is the rounded
+//     reserve, up to reserve*2^-100 (at most 512 pip) MORE than the reserve.
+//   - c12-sale-amount-cancellation: CalculateSaleAmount computes reserve-wanted from operands
+//     rounded to 100 bits. When wanted is within reserve*2^-97 of the reserve (possible for
+//     reserve > 1.6e29 pip; CalculateSaleAmountAndCheck admits wanted <= reserve), x =
+//     (reserve-wanted)/reserve is lost completely and the result is off by up to
+//     (2^-97)^(crr/100) * supply (0.12% of the supply at crr 10) instead of ~2^-98 * supply.
+const (
+	c12SigAboveReserve = "c12-return-above-reserve"
+	c12SigCancellation = "c12-sale-amount-cancellation"
+)
+
+// c12ReturnBound checks SaleReturn <= reserve, up to the known finding.
+func c12ReturnBound(t *rapid.T, c c12Case, res *big.Int) {
+	if c.k != bancor.SaleReturn || res.Cmp(c.r) <= 0 {
+		return
+	}
+	over := new(big.Int).Sub(res, c.r)
+	ulp := new(big.Int).Rsh(c.r, 100)
+	if c.crr != 100 && c.r.Cmp(c12Pow2) > 0 && over.Cmp(ulp) <= 0 {
+		sim.S.Exclude(c12SigAboveReserve, 1)
+		return
+	}
+	t.Fatalf("VERIF-SIG[c12-return-above-reserve-unexplained] %s = %s exceeds the reserve by %s", c, res, over)
+}
+
+// c12Accuracy checks |impl - exact| <= 1 + K*model for a float-path call and returns the
+// ratio (|impl-exact|-1)/model.
+func c12Accuracy(t *rapid.T, c c12Case, res *big.Int, extra map[string]interface{}) float64 {
+	v := bancor.Eval(c.k, c.s, c.r, c.crr, c.amt, 80)
+	dist, sign := v.Dist(res)
+	mod := c12Unit(c.k, c.s, c.r, c.crr, c.amt)
+	distF := v.Scaled(dist)
+	excess := new(big.Float).SetPrec(64).Sub(distF, big.NewFloat(1)) // beyond truncation
+	ratio := 0.0
+	if excess.Sign() > 0 && !mod.unit.IsInf() {
+		ratio, _ = new(big.Float).Quo(excess, mod.unit).Float64()
+	}
+	exact := v.Float().Text('f', 3)
+	if extra != nil {
+		extra["exact"] = exact
+		extra["ratio_to_model"] = ratio
+	}
+	pre := "C12/" + c.k.String() + "/"
+	describe := func() string { return fmt.Sprintf("%s = %s exact %s", c, res, exact) }
+	switch {
+	case mod.unit.IsInf():
+		sim.S.Label(pre + "model-overflow")
+	case c12Calibrating():
+		c12Observe(c.k.String(), ratio, mod.term, describe)
+		c12Observe(fmt.Sprintf("%s/term=%s", c.k, mod.term), ratio, mod.term, describe)
+		if mod.cancel {
+			c12Observe(c.k.String()+"/cancellation", ratio, mod.term, describe)
+		}
+	case excess.Cmp(c12Slack(mod.unit)) > 0:
+		rel, _ := new(big.Float).Quo(distF, new(big.Float).Add(v.Float(), big.NewFloat(1))).Float64()
+		t.Fatalf("VERIF-SIG[c12-inaccurate] %s = %s, exact %s (impl-exact sign %+d, |diff| %s, relative to the exact value %.3g); allowed 1 + %d*%s (largest model term: %s), ratio to model %.4g",
+			c, res, exact, sign, distF.Text('g', 10), rel, c12K, mod.unit.Text('g', 6), mod.term, ratio)
+	}
+	if mod.cancel {
+		// known finding: beyond the bound that holds everywhere else plus 2^-40 of the supply?
+		coarse := c12Slack(mod.linear)
+		coarse.Add(coarse, new(big.Float).SetMantExp(new(big.Float).SetInt(v.M), -40))
+		if excess.Cmp(coarse) > 0 {
+			sim.S.Exclude(c12SigCancellation, 1)
+		} else {
+			sim.S.Label(pre + "cancellation-regime-accurate")
+		}
+	}
+	if ratio > 0.25 {
+		sim.S.Label(pre + "error>model/4")
+	}
+	return ratio
+}
+
+func c12AmountMax(k bancor.Kind, s, r *big.Int) *big.Int {
+	switch k {
+	case bancor.PurchaseReturn:
+		return c12E33
+	case bancor.PurchaseAmount:
+		return new(big.Int).Sub(c12E33, s)
+	case bancor.SaleReturn:
+		return s
+	default:
+		return r
+	}
+}
+
 func c12Check(t *rapid.T, test string, k bancor.Kind) {
 	s, r, crr := c12Coin(t)
 	c := c12Case{k: k, s: s, r: r, crr: crr, amt: c12Amount(t, k, s, r)}
 	res := c.call(t)
 	nontrivial := c12Labels(c, res)
+	extra := map[string]interface{}{}
 
-	// --- special cases and the integer path are exact
-	n, d, m := bancor.Operands(k, s, r, c.amt)
+	// --- (a) special cases and the integer path are exact, the float path follows the model
+	_, d, m := bancor.Operands(k, s, r, c.amt)
 	var exactInt *big.Int
 	switch {
 	case c.amt.Sign() == 0:
@@ -433,67 +551,24 @@ func c12Check(t *rapid.T, test string, k bancor.Kind) {
 	case k == bancor.SaleReturn && c.amt.Cmp(s) == 0:
 		exactInt = new(big.Int).Set(r)
 	case crr == 100:
-		// M*|x-1| = M*amount/D, truncated
-		exactInt = new(big.Int).Mul(m, c.amt)
+		exactInt = new(big.Int).Mul(m, c.amt) // M*|x-1| = M*amount/D, truncated
 		exactInt.Quo(exactInt, d)
 	}
-	_ = n
-	extra := map[string]interface{}{}
 	if exactInt != nil {
 		if res.Cmp(exactInt) != 0 {
 			t.Fatalf("VERIF-SIG[c12-exact-path] %s = %s, exact value (integer path) %s", c, res, exactInt)
 		}
 		extra["exact"] = exactInt.String()
 	} else {
-		// --- (a) distance to the exact formula
-		v := bancor.Eval(k, s, r, crr, c.amt, 80)
-		dist, sign := v.Dist(res)
-		unit, term := c12Unit(k, s, r, crr, c.amt)
-		distF := v.Scaled(dist)
-		excess := new(big.Float).SetPrec(64).Sub(distF, big.NewFloat(1)) // beyond truncation
-		ratio := 0.0
-		if excess.Sign() > 0 && !unit.IsInf() {
-			ratio, _ = new(big.Float).Quo(excess, unit).Float64()
-		}
-		extra["exact"] = v.Float().Text('f', 3)
-		extra["ratio_to_model"] = ratio
-		if unit.IsInf() {
-			sim.S.Label("C12/" + k.String() + "/model-overflow")
-		} else if c12Calibrating() {
-			c12Observe(k.String(), ratio, term, func() string {
-				return fmt.Sprintf("%s = %s exact %s", c, res, v.Float().Text('f', 3))
-			})
-			c12Observe(fmt.Sprintf("%s/term=%s", k, term), ratio, term, func() string {
-				return fmt.Sprintf("%s = %s exact %s", c, res, v.Float().Text('f', 3))
-			})
-		} else if excess.Cmp(c12Slack(unit)) > 0 {
-			rel, _ := new(big.Float).Quo(distF, new(big.Float).Add(v.Float(), big.NewFloat(1))).Float64()
-			t.Fatalf("VERIF-SIG[c12-inaccurate] %s = %s, exact %s (impl-exact sign %+d, |diff| %s, relative %.3g); allowed 1 + %d*%s (model term %s), ratio to model %.4g",
-				c, res, v.Float().Text('f', 3), sign, distF.Text('g', 10), rel, c12K, unit.Text('g', 6), term, ratio)
-		}
-		if ratio > 0.25 {
-			sim.S.Label("C12/" + k.String() + "/error>model/4")
-		}
+		c12Accuracy(t, c, res, extra)
 	}
 
-	// --- (b) bounds
-	if k == bancor.SaleReturn && res.Cmp(r) > 0 {
-		t.Fatalf("VERIF-SIG[c12-return-above-reserve] %s = %s exceeds the reserve by %s", c, res, new(big.Int).Sub(res, r))
-	}
+	// --- (b) a sale never returns more than the reserve
+	c12ReturnBound(t, c, res)
 
 	// --- (b) monotone in the amount: f(amount) <= f(amount + delta)
-	var hiAmt *big.Int
-	switch k {
-	case bancor.PurchaseReturn:
-		hiAmt = c12E33
-	case bancor.PurchaseAmount:
-		hiAmt = new(big.Int).Sub(c12E33, s)
-	case bancor.SaleReturn:
-		hiAmt = s
-	default:
-		hiAmt = r
-	}
-	if c.amt.Cmp(hiAmt) < 0 {
+	hiAmt := c12AmountMax(k, s, r)
+	for i := scale(1, 3); i > 0 && c.amt.Cmp(hiAmt) < 0; i-- {
 		room := new(big.Int).Sub(hiAmt, c.amt)
 		var delta *big.Int
 		if sim.U(t, "delta.small", 3) == 0 {
@@ -507,24 +582,27 @@ func c12Check(t *rapid.T, test string, k bancor.Kind) {
 		c2 := c
 		c2.amt = new(big.Int).Add(c.amt, delta)
 		res2 := c2.call(t)
-		if k == bancor.SaleReturn && res2.Cmp(r) > 0 {
-			t.Fatalf("VERIF-SIG[c12-return-above-reserve] %s = %s exceeds the reserve by %s", c2, res2, new(big.Int).Sub(res2, r))
-		}
+		c12ReturnBound(t, c2, res2)
 		drop := new(big.Int).Sub(res, res2)
 		if drop.Sign() > 0 {
 			sim.S.Label("C12/" + k.String() + "/monotone-dip")
 			// On the integer path nothing may decrease. On the float path both values carry the
 			// model error and a truncation: trunc(A') - trunc(B') < 1 + errA + errB for A <= B.
 			allowed := new(big.Float)
+			ratio := math.Inf(1)
 			if crr != 100 {
-				u1, _ := c12Unit(k, s, r, crr, c.amt)
-				u2, _ := c12Unit(k, s, r, crr, c2.amt)
-				allowed = c12Slack(new(big.Float).SetPrec(64).Add(u1, u2))
+				sum := new(big.Float).SetPrec(64).Add(c12Unit(k, s, r, crr, c.amt).unit, c12Unit(k, s, r, crr, c2.amt).unit)
+				allowed = c12Slack(sum)
 				if !allowed.IsInf() {
 					allowed.Add(allowed, big.NewFloat(1))
+					ratio, _ = new(big.Float).Quo(new(big.Float).SetInt(new(big.Int).Sub(drop, c12One)), sum).Float64()
 				}
 			}
-			if new(big.Float).SetInt(drop).Cmp(allowed) > 0 && !c12Calibrating() {
+			if c12Calibrating() {
+				c12Observe(k.String()+"/monotone", ratio, "dip", func() string {
+					return fmt.Sprintf("%s = %s, amount+%s -> %s", c, res, delta, res2)
+				})
+			} else if new(big.Float).SetInt(drop).Cmp(allowed) > 0 {
 				t.Fatalf("VERIF-SIG[c12-not-monotone] %s = %s but with amount %s (+%s) the result is %s: decreases by %s, allowed %s",
 					c, res, c2.amt, delta, res2, drop, allowed.Text('g', 6))
 			}
@@ -567,7 +645,16 @@ func TestC12SellEntireSupply(t *testing.T) {
 		if res == r {
 			t.Fatalf("VERIF-SIG[c12-full-supply-alias] %s returns the caller's reserve pointer", c)
 		}
+		if s.Cmp(c12One) > 0 {
+			c1 := c
+			c1.amt = new(big.Int).Sub(s, c12One)
+			c12ReturnBound(t, c1, c1.call(t))
+		}
 		sim.S.Label(fmt.Sprintf("C12/SellEntireSupply/crr100=%v", crr == 100))
+		if v, _ := new(big.Float).SetPrec(100).SetInt(r).Int(nil); v.Cmp(r) != 0 {
+			// only here the special case differs from the float path (which would return fl(r))
+			sim.S.Label("C12/SellEntireSupply/reserve-not-representable-in-100-bits")
+		}
 		sim.S.Case("TestC12SellEntireSupply", crr != 100, c.key(), c12Sample(c, res, nil))
 	})
 }
@@ -582,7 +669,20 @@ func TestC12SellEntireSupply(t *testing.T) {
 func TestC12RoundTrip(t *testing.T) {
 	rapid.Check(t, func(t *rapid.T) {
 		s, r, crr := c12Coin(t)
-		d := c12Mag(t, "deposit", c12One, new(big.Int).Sub(c12E33, r))
+		// deposits whose purchase fits under the maximal supply 10^33 (estimated in float64;
+		// the estimate only steers the generator, the overflow is re-checked exactly below)
+		dmax := new(big.Int).Sub(c12E33, r)
+		sf, _ := new(big.Float).SetInt(s).Float64()
+		rf, _ := new(big.Float).SetInt(r).Float64()
+		if est := rf * (math.Pow(1e33/sf, 100/float64(crr)) - 1); est < 1e33 {
+			if est < 1 {
+				est = 1
+			}
+			if e, _ := new(big.Float).SetFloat64(est).Int(nil); e.Cmp(dmax) < 0 {
+				dmax = e
+			}
+		}
+		d := c12Mag(t, "deposit", c12One, dmax)
 		buy := c12Case{k: bancor.PurchaseReturn, s: s, r: r, crr: crr, amt: d}
 		bought := buy.call(t)
 		s2 := new(big.Int).Add(s, bought)
@@ -595,6 +695,7 @@ func TestC12RoundTrip(t *testing.T) {
 		}
 		sell := c12Case{k: bancor.SaleReturn, s: s2, r: r2, crr: crr, amt: bought}
 		back := sell.call(t)
+		c12ReturnBound(t, sell, back)
 		gain := new(big.Int).Sub(back, d)
 		nontrivial := crr != 100 && bought.Sign() > 0 && back.Sign() > 0
 		switch {
@@ -611,8 +712,8 @@ func TestC12RoundTrip(t *testing.T) {
 			allowed := new(big.Float)
 			ratio := math.Inf(1)
 			if crr != 100 && bought.Sign() > 0 {
-				uPR, _ := c12Unit(bancor.PurchaseReturn, s, r, crr, d)
-				uSR, _ := c12Unit(bancor.SaleReturn, s2, r2, crr, bought)
+				uPR := c12Unit(bancor.PurchaseReturn, s, r, crr, d).unit
+				uSR := c12Unit(bancor.SaleReturn, s2, r2, crr, bought).unit
 				price := new(big.Float).SetPrec(64).Quo(new(big.Float).SetInt(r), new(big.Float).SetInt(s2))
 				price.Mul(price, big.NewFloat(2*100/float64(crr)))
 				model := new(big.Float).SetPrec(64).Mul(uPR, price)
@@ -638,4 +739,43 @@ func TestC12RoundTrip(t *testing.T) {
 		})
 	})
 	c12Report(t)
+}
+
+func c12Int(dec string) *big.Int {
+	v, ok := new(big.Int).SetString(dec, 10)
+	if !ok {
+		panic("bad integer " + dec)
+	}
+	return v
+}
+
+// TestC12_KF_ReturnAboveReserve reproduces the known finding c12-return-above-reserve
+// deterministically and records whether it is still present (it never fails).
+func TestC12_KF_ReturnAboveReserve(t *testing.T) {
+	s := c12Int("630957975437538689")
+	r := new(big.Int).Sub(c12Pow10(31), c12One)
+	res, p := c12Impl(bancor.SaleReturn, s, r, 10, new(big.Int).Sub(s, c12One))
+	reproduced := p == nil && res != nil && res.Cmp(r) > 0
+	t.Logf("CalculateSaleReturn(supply=%s, reserve=%s, crr=10, amount=supply-1) = %v (panic %v) -> above the reserve: %v", s, r, res, p, reproduced)
+	sim.S.KnownFinding(c12SigAboveReserve, reproduced)
+}
+
+// TestC12_KF_SaleAmountCancellation reproduces the known finding
+// c12-sale-amount-cancellation deterministically (it never fails): reproduced when the
+// result is further than 2^-40 * supply from the exact value.
+func TestC12_KF_SaleAmountCancellation(t *testing.T) {
+	s := c12Int("999999956594304214313673228787018")
+	r := c12Int("222454315284682613241025829538321")
+	w := new(big.Int).Sub(r, big.NewInt(96))
+	res, p := c12Impl(bancor.SaleAmount, s, r, 10, w)
+	reproduced := false
+	exact := "?"
+	if p == nil && res != nil {
+		v := bancor.Eval(bancor.SaleAmount, s, r, 10, w, 80)
+		dist, _ := v.Dist(res)
+		exact = v.Float().Text('f', 3)
+		reproduced = v.Scaled(dist).Cmp(new(big.Float).SetMantExp(new(big.Float).SetInt(s), -40)) > 0
+	}
+	t.Logf("CalculateSaleAmount(supply=%s, reserve=%s, crr=10, wanted=reserve-96) = %v (panic %v), exact %s -> off by more than supply*2^-40: %v", s, r, res, p, exact, reproduced)
+	sim.S.KnownFinding(c12SigCancellation, reproduced)
 }
